@@ -1,4 +1,4 @@
-import Grexv.Model.RegExp
+import Grexv.Model.Api
 
 /-
 Line-protocol driver helpers (no Mathlib anywhere below this file, so `gvdriver` links).
@@ -128,6 +128,38 @@ def handleTrace (bits minRep minLen : Nat) (ws : List Str) (dict : List DictEntr
       (if st.trace.isEmpty then "!" else
         ";".intercalate (st.trace.map fun (p, v) => hexStr p ++ ":" ++ (if v then "1" else "0")))
 
+def allSetterIds : List Gen.SetterId :=
+  [.digits, .nonDigits, .whitespace, .nonWhitespace, .words, .nonWords, .repetitions, .caseInsensitive,
+   .capturingGroups, .minRepetitions, .minSubstringLength, .escaping, .verbose, .noStartAnchor, .noEndAnchor,
+   .noAnchors, .syntaxHighlighting]
+
+def sampleArgs : List Arg := [.none, .bool true, .bool false, .int 0, .int 1, .int 2, .int 7]
+
+def cfgBits (c : Config) : String :=
+  let bs := [c.digit, c.nonDigit, c.space, c.nonSpace, c.word, c.nonWord, c.rep, c.ci, c.cap, c.esc, c.sur, c.verb,
+    c.noStart, c.noEnd, c.color]
+  String.ofList (bs.map fun b => if b then '1' else '0') ++ "/" ++ toString c.minRep ++ "/" ++ toString c.minLen
+
+def showResult : Option (Except Gen.Msg Config) → String
+  | none => "absent"
+  | some (.ok c) => "ok:" ++ cfgBits c
+  | some (.error .missingTestCases) => "err:missing"
+  | some (.error .minRep) => "err:minrep"
+  | some (.error .minLen) => "err:minlen"
+
+/-- every setter of a front end against the library's, on sample arguments and two start configurations:
+the list of (setter index, argument index) where the generated semantics differ -/
+def compareApi (api : List Gen.Setter) : String :=
+  let starts : List Config := [{}, { digit := true, esc := true, sur := true, noEnd := true, minRep := 3 }]
+  let diffs := (allSetterIds.zipIdx).flatMap fun (id, i) =>
+    if id == .syntaxHighlighting then [] else
+    (sampleArgs.zipIdx).flatMap fun (a, j) =>
+      starts.filterMap fun c =>
+        let x := showResult (applySetter api id a c)
+        let y := showResult (applySetter Gen.rsSetters id a c)
+        if x == y then none else some (toString i ++ ":" ++ toString j ++ ":" ++ x ++ "!=" ++ y)
+  if diffs.isEmpty then "A same" else "A " ++ ";".intercalate diffs
+
 def handleLine (line : String) : String :=
   match line.trimAscii.toString.splitOn " " with
   | [kind, bits, mr, ml, tcs, dict] =>
@@ -140,6 +172,14 @@ def handleLine (line : String) : String :=
       | some b, some r, some l, some ws, some d => handleBuild (kind = "S") b r l ws d
       | _, _, _, _, _ => "E parse"
     else "E unknown"
+  | ["A", which] =>
+    if which = "wasm" then compareApi Gen.wasmSetters
+    else if which = "py" then compareApi Gen.pySetters
+    else "E unknown"
+  | ["Y", pat] =>
+    match parseHexStr pat with
+    | some p => "Y " ++ hexStr (pyRewrite (p.length + 1) p)
+    | none => "E parse"
   | ["L", pat] =>
     match parseHexStr pat with
     | some p => match Spec.parse p with
